@@ -126,6 +126,7 @@ struct ApiRun {
     long enum_steps = 0;
     bool disk_plan_active = false;
     bool absorbed_pending = false;        // a call completed normally although an allocation failed: compare dumps after the op
+    bool last_fault_sq = false;           // allocator domain of the most recent injected failure
     bool iter_fault_hit = false;          // an iterator call ran under a fired allocation fault: caller aborts the iterator
     template <class F> int api(const char *fn, F f, int flags = A_PLAIN);
     void env_check(const char *fn, const std::string &loc0, int rnd0);
@@ -143,9 +144,10 @@ template <class F> int ApiRun::api(const char *fn, F f, int flags) {
         AllocSeam &A = sq ? g_salloc : g_lalloc;
         Rng skip(h);
         if (flags & A_ITER) {
-            long k = 1 + (long) skip.below(12);
+            long k = 1 + (long) (skip.chance(1, 2) ? skip.below(12) : skip.below(60));   // one failure index per iterator call (the iterator is abandoned afterwards)
             A.arm(k); int rc = f(); bool fired = A.fired; A.disarm();
             env_check(fn, loc0, rnd0);
+            last_fault_sq = sq;
             if (fired && (rc == CIF_MEMORY_ERROR || rc == CIF_ERROR)) { ++enum_steps; enum_check_failed_attempt(fn, rc, k, sq, false); iter_fault_hit = true; }
             else if (fired) { g_stats.inc(sq ? "fault.alloc_sqlite.absorbed" : "fault.alloc_libcif.absorbed"); ev("%s: %s allocation failure #%ld absorbed -> %s", fn, sq ? "storage-engine" : "library", k, rc_name(rc)); }
             return rc;
